@@ -384,7 +384,8 @@ def evaluate__round_half_to_even(self: XPathFunction, context: ta.ContextType = 
         if isinstance(item, Decimal):
             try:
                 with localcontext() as ctx:
-                    ctx.prec = len(item.as_tuple().digits) + 1
+                    digits = min(max(precision, 0), -item.as_tuple().exponent)  # type: ignore[operator]
+                    ctx.prec = max(item.adjusted() + 2 + digits, 1)
                     return round(item, precision)  # type: ignore[arg-type]
             except DecimalException:
                 return Decimal.from_float(round(float(item), precision))  # type: ignore[arg-type]
